@@ -16,8 +16,75 @@ func (e *Exec) BuildSMT(asserts []*Term, getvals []*Term) string {
 	p := e.S.NewPrinter()
 	var body strings.Builder
 	var refs []string
+	// axioms about uninterpreted-function applications that the query does not mention are dropped
+	// (they constrain nothing the query can observe); all other axioms are kept
+	used := map[int]bool{}
+	seen := map[int]bool{}
+	var walk func(t *Term)
+	walk = func(t *Term) {
+		if seen[t.ID] {
+			return
+		}
+		seen[t.ID] = true
+		if t.Op == OpUF {
+			used[t.ID] = true
+		}
+		for _, a := range t.Args {
+			walk(a)
+		}
+	}
+	for _, a := range asserts {
+		walk(a)
+	}
+	for _, g := range getvals {
+		walk(g)
+	}
+	ufsOf := func(t *Term) []int {
+		var out []int
+		sn := map[int]bool{}
+		var w func(t *Term)
+		w = func(t *Term) {
+			if sn[t.ID] {
+				return
+			}
+			sn[t.ID] = true
+			if t.Op == OpUF {
+				out = append(out, t.ID)
+			}
+			for _, a := range t.Args {
+				w(a)
+			}
+		}
+		w(t)
+		return out
+	}
+	// closure: an axiom mentioning a used application makes its other applications used too
+	type axInfo struct {
+		t   *Term
+		ufs []int
+	}
+	var infos []axInfo
 	for _, a := range e.Axioms {
-		refs = append(refs, p.Ref(a))
+		infos = append(infos, axInfo{a, ufsOf(a)})
+	}
+	keep := make([]bool, len(infos))
+	for i := range keep {
+		keep[i] = true
+	}
+	for i, in := range infos {
+		if !keep[i] {
+			continue
+		}
+		all := true
+		for _, u := range in.ufs {
+			if !used[u] {
+				all = false
+			}
+		}
+		if !all {
+			continue
+		}
+		refs = append(refs, p.Ref(in.t))
 	}
 	for _, a := range e.S.ShareAxioms() {
 		refs = append(refs, p.Ref(a))
